@@ -143,6 +143,18 @@ claim('C03',
       'the split/merge round trip are SVD based and are checked as mode-N clauses in C13 / C12.',
       'Data-independent control flow (multilinearity argument); sizes L <= 4, d <= 3; identity(scale) is modelled as the '
       'code is (scale multiplies every site tensor).')
+claim('C04',
+      'TLC trace validation (TraceChain.tla) of logged vdot / norm / operator_average / operator_inner_product / '
+      'operator_density_average / transfer steps / compute_right_operator_blocks / apply_local_hamiltonian (one- and '
+      'two-site) / apply_local_bond_contraction calls on Gaussian-integer operands: dense definitions and the projection '
+      'identity evaluated exactly; TransferLaw model checked in Chain.tla',
+      'All quantities of the property are polynomial / sesquilinear, so Gaussian-integer operands give exactly '
+      'representable results; TLC evaluates the dense definitions (first argument of the inner product conjugated, '
+      'index order of every leg), recomputes the environment blocks by its own index-sum recursion, and checks at every '
+      'site position that <B|Heff|A> equals the matrix element of the dense operator between the full states, and that '
+      'Heff is Hermitian whenever Mat(H) is. Bra and ket have independent bond profiles, charges are on.',
+      'Data-independent control flow (multilinearity); sizes L <= 3, d <= 3, D <= 3; two-site check compares with the '
+      'index sum on merged tensors.')
 
 def main():
     props = [json.loads(l) for l in open(os.path.join(VERIF, 'properties.jsonl'))]
